@@ -101,6 +101,29 @@ def r_body_cover(ck: Checker) -> None:
         ck.add(f"{fq} stays in the body", got <= req, ck.func(f"utils.ast:{fq}"), None, f"extra {[fmt_path(p) for p in sorted(got - req)][:3]}", "", nontrivial=False)
 
 
+def r_unconditional(ck: Checker) -> None:
+    """the predicate collectors of utils.ast decide by node KIND where to descend and by `sign in signs` what to report;
+    nothing else may stand between a node and its predicates (the grammar-path rules only see whether a yield can be reached)"""
+    n = 0
+    for q, f in ck.prg.funcs.items():
+        if not q.startswith("ngo.utils.ast:") or isinstance(f.node, ast.Lambda):
+            continue
+        ys = find_nodes(f.node, lambda x: isinstance(x, (ast.Yield, ast.YieldFrom)))
+        yp = [y for y in ys if isinstance(y.value, ast.Call) and ("predicate" in unparse(y.value.func).lower() or "preds" in unparse(y.value.func).lower())]  # type: ignore[attr-defined]
+        if not yp:
+            continue
+        it = ck.interp(f)
+        sparam = [x for x in f.params() if x in ("signs", "sign")] or f.params()[1:2]
+        for y in yp:
+            if not it.reachable(y):
+                continue
+            n += 1
+            extra = [f"{k} is {v}" for k, v in it.known(y) if "ast_type" not in k and not any(re.fullmatch(rf".+\.sign in {re.escape(sp)}", k) for sp in sparam)]
+            ck.add(f"{f.name}: `{short(unparse(y), 60)}` depends on node kinds and the sign filter only", not extra, f, y, f"further conditions on the way: {extra}",
+                   "a collector that skips `not c(X) : risky(X)` in a disjunction (or any other shape) hides predicates from auto-detection, from the usage analysis of unused and from the dependency graphs")
+    ck.need(n >= 25, f"collector yield sites found ({n})")
+
+
 def r_detect_input(ck: Checker) -> None:
     func = ck.func("utils.globals:auto_detect_input")
     it = ck.interp(func)
@@ -202,6 +225,7 @@ def r_detect_output(ck: Checker) -> None:
 
 RULES = [
     Rule("C18.EXHAUST.predicates", P + ("C07", "C19"), r_predicates_cover, extra={p_: ("SIGNS lists every sign",) for p_ in ("C20", "C12", "C13", "C15", "C09", "C08")}),
+    Rule("C18.EXHAUST.unconditional", P + ("C07", "C19", "C09", "C08", "C15", "C20"), r_unconditional),
     Rule("C18.headderivable", P + ("C08", "C20", "C19"), r_headderivable),
     Rule("C18.body", P + ("C15", "C20", "C08", "C19"), r_body_cover),
     Rule("C18.FLOW.detect-input", P + ("C19",), r_detect_input),
